@@ -27,12 +27,19 @@ NumVals == {<<0>>, <<255>>, <<1, 0>>, <<255, 255>>, <<0, 1, 0, 0>>, Rep(255, 4),
 \* values of a width that is not a canonical number (no shorthand may be used for them)
 OddVals == {<<1, 2, 3>>, <<0, 0, 0, 0, 0, 0, 0, 1>>, Rep(1, 9), <<0, 0, 0, 7>>}
 Digest32 == [i \in 1..32 |-> (i * 37) % 256]
+\* well-formed UTF-8 text with non-ASCII characters (given raw in URI text by the "rawU" form): e-acute, Cyrillic
+\* "Алек", "Bölter", "x²" (superscript digit), Arabic-Indic digit three, "e" + combining acute, CJK, an emoji
+\* (4 bytes), "Σπ", and text that also holds '/', '%', '=' and a space
+Utf8Vals == {<<195, 169>>, <<208, 144, 208, 187, 208, 181, 208, 186>>, <<66, 195, 182, 108, 116, 101, 114>>,
+             <<120, 194, 178>>, <<217, 163>>, <<101, 204, 129>>, <<229, 144, 141>>, <<240, 159, 152, 128>>,
+             <<206, 163, 207, 128>>, <<97, 47, 195, 169, 37, 61, 32, 208, 176>>}
 Vals == {<<b>> : b \in 0..255} \cup {<<a, b>> : a, b \in Alpha12} \cup {<<>>}
-        \cup NumVals \cup OddVals \cup {Digest32}
+        \cup NumVals \cup OddVals \cup {Digest32} \cup Utf8Vals
 Comps == {Comp(t, v) : t \in Types, v \in Vals}
 
 RFull == << Comp(8, <<>>), Comp(8, <<97>>), Comp(8, <<47>>), Comp(8, <<37>>), Comp(8, <<61>>),
             Comp(8, <<46>>), Comp(32, <<>>), Comp(1, Digest32), Comp(50, <<1, 0>>), Comp(253, <<97>>),
+            Comp(8, <<208, 144, 208, 187>>), Comp(8, <<120, 194, 178>>),
             Comp(8, <<46, 46>>), Comp(50, <<0, 1>>), Comp(8, <<255>>), Comp(65535, <<>>), Comp(2, <<171, 205>>),
             Comp(54, Rep(255, 8)), Comp(8, <<32>>), Comp(8, <<0>>), Comp(50, <<>>), Comp(9, <<65, 61, 66>>),
             Comp(56, <<0, 0, 0, 1, 0, 0, 0, 0>>), Comp(58, <<7>>), Comp(252, <<97>>), Comp(253, <<>>),
@@ -58,7 +65,7 @@ Domain == CASE Mode = "comp" -> Comps
 \* what stage B replays into the library for one input (computed by the workers, read back from -dump)
 CompRec(c) == [t |-> c.t, v |-> c.v, enc |-> Enc(c), forms |-> CompForms(c)]
 NameRec(n) == [n |-> n, encs |-> EncList(n), wire |-> EncName(n), forms |-> NameForms(n),
-               parts |-> [k \in {"canonU", "canonL", "short", "raw"} |-> [i \in 1..Len(n) |-> FormOf(n[i], k)]]]
+               parts |-> [k \in {"canonU", "canonL", "short", "raw", "rawU"} |-> [i \in 1..Len(n) |-> FormOf(n[i], k)]]]
 Rec(v) == CASE Mode = "comp" -> CompRec(v) [] Mode = "name" -> NameRec(v) [] OTHER -> <<>>
 
 \* TLC evaluates invariants on initial states in one thread; the laws are therefore evaluated on the
@@ -73,7 +80,7 @@ I_CompCanon == ph = 1 => (UriToComp(Canonical(x)) = x)
 I_CanonNoShorthand == ph = 1 => (~HasShorthand(Canonical(x)))
 I_CompForms == ph = 1 => (\A f \in out.forms :
                  /\ UriToComp(EscapeText(f.s)) = x
-                 /\ (f.k # "raw" => EscapeText(f.s) = f.s))      \* only the raw form needs escaping
+                 /\ (f.k \notin {"raw", "rawU"} => EscapeText(f.s) = f.s))      \* only the raw forms need escaping
 I_ShorthandOnlyCanonNumbers == ph = 1 => ((x.t \in AltTypes /\ HasShorthand(CompToUri(x))) => IsCanonNum(x.v))
 
 \* ------------------------------------------------------------------ laws: name
@@ -109,9 +116,12 @@ Witnesses ==
   CASE Mode = "comp" -> /\ \E c \in Comps : HasShorthand(CompToUri(c)) /\ c.t \in AltTypes /\ c.v = Rep(255, 8)
                         /\ \E c \in Comps : c.t \in AltTypes /\ ~IsCanonNum(c.v)        \* no shorthand allowed
                         /\ \E c \in Comps : c.t = 8 /\ \E i \in 1..Len(c.v) : ~Literal(c.v[i])
+                        /\ \E c \in Comps : "rawU" \in StylesOf(c) /\ Len(c.v) = 4 /\ c.v[1] = 240   \* raw 4-byte character
+                        /\ \E c \in Comps : HasNonAscii(c.v) /\ ~IsUtf8(c.v)                        \* bytes that are not text
     [] Mode = "name" -> /\ \E n \in RNames : Len(n) = 3 /\ Last(n) = Comp(8, <<>>)       \* mandatory trailing slash
                         /\ \E n \in RNames : Len(n) = 2 /\ n[1] = Comp(8, <<>>)          \* leading slash mandatory
                         /\ \E n \in RNames : Len(n) > 0 /\ n[1] # Comp(8, <<>>)          \* leading slash optional
+                        /\ \E n \in RNames : Len(n) = 2 /\ "rawU" \in StylesOf(n[1])           \* raw non-ASCII component
     [] Mode = "pair" -> /\ \E a, b \in QNames : IsPrefix(a, b) /\ a # b /\ a # <<>>
                         /\ \E a, b \in QNames : Len(a) = 2 /\ Len(b) = 2 /\ a[1] = b[1] /\ a[2].t < b[2].t
                                                   /\ Len(a[2].v) > Len(b[2].v)            \* type decides before length
